@@ -157,7 +157,7 @@ package queue
 //@   nopanic
 //@   requires q != nil && meta != nil && meta.MsgMeta != nil && meta.RcptErrs != nil
 //@   requires forall k int :: 0 <= k && k < len(failedRcpts) ==> has(meta.RcptErrs, failedRcpts[k]) && meta.RcptErrs[failedRcpts[k]] != nil
-//@   modifies gDSNCalls, gDSNRcpts, gOpen, gAcc, gBodyErr, gCommitted, gCommitFailed, gRcptFields, gHdrPart, gHdrParts
+//@   modifies gDSNCalls, gDSNRcpts, gOpen, gAcc, gBodyErr, gCommitted, gCommitFailed, gRcptFields, gHdrPart, gHdrParts, fsSt, fsData
 //@   trusted-ensures gDSNCalls == old(gDSNCalls) + 1 && gDSNRcpts == failedRcpts
 //@   ensures gOpen == old(gOpen)
 //@   assert-call dsn.GenerateDSN : q.dsnPipeline != nil && meta.MsgMeta.OriginalFrom != ""
